@@ -566,7 +566,7 @@ def run_c16(prop, tier, seed):
     # compile histories in one process (accepted texts and texts rejected half-way through a rule, in generated orders):
     # every accepted text must give the code a fresh process gave
     hist_out = os.path.join(d, "history.json")
-    hp = subprocess.run([front, "c16-history", "--seed", str(seed), "--cases", str(400 if tier == "quick" else 6000), "--dir", d, "--out", hist_out],
+    hp = subprocess.run([front, "c16-history", "--seed", str(seed), "--cases", str(2500 if tier == "quick" else 30000), "--dir", d, "--out", hist_out],
                         stdout=subprocess.PIPE, stderr=subprocess.PIPE, timeout=3000)
     hist_infra = None
     try:
